@@ -247,8 +247,8 @@ def output_cases(draw, tier):
     return {"format": fmt, "triples": triples}
 
 
-SUBCHECKS = [Sub("ntriples", lambda tier: nt_cases(tier), run_nt, {"quick": 3000, "thorough": 100000}),
-             Sub("output", lambda tier: output_cases(tier), run_output, {"quick": 3000, "thorough": 100000})]
+SUBCHECKS = [Sub("ntriples", lambda tier: nt_cases(tier), run_nt, {"quick": 2500, "thorough": 100000}),
+             Sub("output", lambda tier: output_cases(tier), run_output, {"quick": 2500, "thorough": 100000})]
 
 
 # ---------------------------------------------------------------- Turtle / TriG, forward
@@ -350,7 +350,7 @@ def run_ttl(case):
     return out
 
 
-SUBCHECKS.append(Sub("turtle", lambda tier: ttl_cases(tier), run_ttl, {"quick": 4000, "thorough": 150000}, weight=2))
+SUBCHECKS.append(Sub("turtle", lambda tier: ttl_cases(tier), run_ttl, {"quick": 3000, "thorough": 150000}, weight=2))
 
 
 # ---------------------------------------------------------------- RDF/XML, forward
@@ -476,7 +476,7 @@ def run_xml(case):
     return out
 
 
-SUBCHECKS.append(Sub("rdfxml", lambda tier: xml_cases(tier), run_xml, {"quick": 3000, "thorough": 100000}))
+SUBCHECKS.append(Sub("rdfxml", lambda tier: xml_cases(tier), run_xml, {"quick": 2500, "thorough": 100000}))
 
 
 # ---------------------------------------------------------------- JSON-LD, forward
@@ -592,7 +592,7 @@ def run_jsonld(case):
     return out
 
 
-SUBCHECKS.append(Sub("jsonld", lambda tier: jl_cases(tier), run_jsonld, {"quick": 3000, "thorough": 100000}))
+SUBCHECKS.append(Sub("jsonld", lambda tier: jl_cases(tier), run_jsonld, {"quick": 2000, "thorough": 100000}))
 
 
 # ---------------------------------------------------------------- a small corpus of hand-written spellings (one per repaired finding), every mode
